@@ -22,7 +22,7 @@ const IGNORE: &[&str] = &[
     "type_name", "default", "empty", "as_any_cache", "_as_any_cache", "from_type", "parent", "components", "strip_prefix", "to_str", "file_stem",
     "is_dir", "is_file", "join", "reset", "is_hot_reloaded", "reloader", "assets", "get_source", "to_vec", "add", "size_of_val", "for_value",
     "type_id_of", "matches", "Layout", "from_size_align_unchecked", "extend_layout", "unwrap_unchecked", "borrowed", "into_owned", "get_inner_layout",
-    "handle_alloc_error", "yield_point", "as_bytes", "borrow", "into_boxed_slice", "needs_drop", "Self", "Record", "NonNull", "path", "kind", "starts_with", "push_str", "rfind",
+    "handle_alloc_error", "yield_point", "new_biased", "as_bytes", "borrow", "into_boxed_slice", "needs_drop", "Self", "Record", "NonNull", "path", "kind", "starts_with", "push_str", "rfind",
 ];
 
 const LOCKS: &[&str] = &["read", "write", "lock", "borrow", "borrow_mut", "try_read", "try_write", "try_lock"];
@@ -119,7 +119,22 @@ impl Sk {
         }
     }
 
+    /// statements under `#[cfg(assets_manager_verif)]` (verification hooks) are not part of the code
+    fn is_hook_stmt(st: &Stmt) -> bool {
+        let attrs: &[syn::Attribute] = match st {
+            Stmt::Local(l) => &l.attrs,
+            Stmt::Macro(m) => &m.attrs,
+            Stmt::Expr(e, _) => match e {
+                Expr::Call(c) => &c.attrs, Expr::MethodCall(c) => &c.attrs, Expr::Macro(c) => &c.attrs, Expr::Block(c) => &c.attrs,
+                Expr::If(c) => &c.attrs, Expr::Assign(c) => &c.attrs, Expr::Unsafe(c) => &c.attrs, _ => &[],
+            },
+            Stmt::Item(_) => &[],
+        };
+        crate::find::is_verif_cfg(attrs)
+    }
+
     fn stmt(&mut self, st: &Stmt) {
+        if Self::is_hook_stmt(st) { return; }
         match st {
             Stmt::Local(l) => {
                 if let Some(init) = &l.init {
@@ -251,6 +266,10 @@ impl Sk {
                         for scope in self.scopes.iter_mut().rev() { if let Some(pos) = scope.iter().position(|(n, _)| *n == name) { moved = Some(scope.remove(pos).1); break; } }
                         if let Some(g) = moved { self.toks.push(Tok::RetGuard(g)); continue; }
                     }
+                    // `guard: this.guard`: a guard held by the consumed value is moved on, not re-acquired (C07)
+                    if let (syn::Member::Named(fname), Expr::Field(src)) = (&f.member, &f.expr) {
+                        if let syn::Member::Named(sname) = &src.member { if fname == "guard" && sname == "guard" { self.call("guard_moved"); continue; } }
+                    }
                     self.expr(&f.expr);
                 }
             }
@@ -300,6 +319,8 @@ const FUNCS: &[(&str, &str, &str, &str)] = &[
     ("src/entry.rs", "UntypedEntry", "write", ""),
     ("src/entry.rs", "EntryStorage", "read", ""),
     ("src/entry.rs", "EntryStorage", "get", ""),
+    ("src/entry.rs", "AssetReadGuard", "map", ""),
+    ("src/entry.rs", "AssetReadGuard", "try_map", ""),
     ("src/hot_reloading/records.rs", "", "record", ""),
     ("src/hot_reloading/records.rs", "", "no_record", ""),
     ("src/hot_reloading/records.rs", "", "add_record", ""),
